@@ -312,7 +312,27 @@ func (h *handler) processUnaryRpc(
 ) *goatorepo.Rpc {
 	ctx, cancel, err := contextFromHeaders(clientCtx, rpc.GetHeader())
 	if err != nil {
-		log.Panic().Err(err).Msg("Server: failed to get context from headers")
+		// Undecodable request metadata is the peer's fault: answer with an error
+		// instead of taking the whole process down.
+		cancel()
+		log.Warn().Err(err).Msg("Server: failed to get context from headers")
+		reply := &goatorepo.Rpc{
+			Id: rpc.GetId(),
+			Header: &goatorepo.RequestHeader{
+				Method:      rpc.Header.Method,
+				Source:      rpc.Header.Destination,
+				Destination: rpc.Header.Source,
+			},
+			Status: &goatorepo.ResponseStatus{
+				Code:    int32(codes.Internal),
+				Message: "malformed request metadata: " + err.Error(),
+			},
+			Trailer: &goatorepo.Trailer{},
+		}
+		if len(rpc.Header.ProxyRecord) > 1 {
+			reply.Header.ProxyNext = rpc.Header.ProxyRecord[0 : len(rpc.Header.ProxyRecord)-1]
+		}
+		return reply
 	}
 	defer cancel()
 	// Like a stream handler's, the handler's context ends with the connection.
